@@ -21,8 +21,9 @@ Local Open Scope nat_scope.
      CWhite        parser.Whitespace       (key: the object itself)
      CJunk         parser.Junk             (key: its unique junk key)
      CSticky       StickyEntry             (Android DocumentWrapper)
-     COther        any other Entry (IniSection, DefinesInstruction)           *)
-Inductive ckind := CEntity | CPlaceholder | CComment | CWhite | CJunk | CSticky | COther.
+     CSection      parser.IniSection       (key: ("[section]", entity.key))
+     COther        any other Entry (DefinesInstruction)                         *)
+Inductive ckind := CEntity | CPlaceholder | CComment | CWhite | CJunk | CSticky | COther | CSection.
 
 Record centry := mkc {
   c_kind : ckind;
@@ -36,6 +37,8 @@ Definition is_comment (e : centry) : bool :=
   match c_kind e with CComment => true | _ => false end.
 Definition is_white (e : centry) : bool :=
   match c_kind e with CWhite => true | _ => false end.
+Definition is_section (e : centry) : bool :=
+  match c_kind e with CSection => true | _ => false end.
 Definition is_sticky (e : centry) : bool :=
   match c_kind e with CSticky => true | _ => false end.
 Definition is_junk (e : centry) : bool :=
@@ -49,14 +52,16 @@ Definition is_entity (e : centry) : bool :=
 (* ---- dict keys -------------------------------------------------------------
    DK k     entity.key (a str)
    DC v n   (comment.val, occurrence counter)
-   DW i     the Whitespace object with identity i                              *)
-Inductive dkey := DK (k : str) | DC (v : str) (n : nat) | DW (i : nat).
+   DW i     the Whitespace object with identity i
+   DS s     ("[section]", section.key): an IniSection                          *)
+Inductive dkey := DK (k : str) | DC (v : str) (n : nat) | DW (i : nat) | DS (s : str).
 
 Definition dkey_eqb (a b : dkey) : bool :=
   match a, b with
   | DK x, DK y => str_eqb x y
   | DC x n, DC y m => str_eqb x y && Nat.eqb n m
   | DW i, DW j => Nat.eqb i j
+  | DS x, DS y => str_eqb x y
   | _, _ => false
   end.
 
@@ -101,6 +106,7 @@ Definition get_key_value (e : centry) (c : counter) : (dkey * centry) * counter 
       let n := S (cget (c_key e) c) in
       ((DC (c_key e) n, e), od_set str_eqb (c_key e) n c)
   | CWhite => ((DW (c_id e), e), c)          (* (entity, entity) *)
+  | CSection => ((DS (c_key e), e), c)       (* (("[section]", entity.key), entity) *)
   | _ => ((DK (c_key e), e), c)              (* (entity.key, entity) *)
   end.
 
@@ -212,13 +218,13 @@ Definition merge_channels (name : str) (versions : list (list centry)) : result 
 Definition ckind_of_Z (z : Z) : ckind :=
   match z with
   | 0 => CEntity | 1 => CComment | 2 => CWhite | 3 => CJunk
-  | 4 => CSticky | 5 => COther | _ => CPlaceholder
+  | 4 => CSticky | 5 => COther | 7 => CSection | _ => CPlaceholder
   end%Z.
 
 Definition ckind_code (k : ckind) : Z :=
   match k with
   | CEntity => 0 | CComment => 1 | CWhite => 2 | CJunk => 3
-  | CSticky => 4 | COther => 5 | CPlaceholder => 6
+  | CSticky => 4 | COther => 5 | CPlaceholder => 6 | CSection => 7
   end%Z.
 
 (* [kind; key; text; val; id] *)
